@@ -9,6 +9,7 @@
 package c09
 
 import (
+	"context"
 	"fmt"
 	"os"
 	"path/filepath"
@@ -541,8 +542,200 @@ func step(e *env, op string) (res string) {
 		return e.snap(f[1])
 	case "all":
 		return e.all()
+	case "rerr":
+		return readerError(e.dir, e.size, f[1], int(i64(f[2])), int(i64(f[3])), int(i64(f[4])))
 	}
 	return "bad-op"
+}
+
+// onceRate is a limiter.Rate that runs fn the first time the compactor's writer flushes.
+type onceRate struct {
+	done bool
+	fn   func()
+}
+
+func (r *onceRate) WaitN(ctx context.Context, n int) error {
+	if !r.done {
+		r.done = true
+		r.fn()
+	}
+	return nil
+}
+func (r *onceRate) Burst() int { return 1 << 30 }
+
+// readerError: "an error injected from a reader". Two files are compacted; the older one
+// starts with a key large enough (incompressible strings) that the output writer flushes —
+// and consults the rate limiter — while that key is being written. At that moment key
+// `victim` is deleted from the older file's reader, which makes its block iterator fail
+// ("delete during iteration") when the compaction gets to the file's next key. The compaction
+// must either fail and leave both inputs in place and readable with no temporary file, or
+// succeed with every key other than the victim complete in its output.
+func readerError(dir string, size int, mode string, nkeys, victim, seed int) string {
+	sub := filepath.Join(dir, "rerr")
+	os.RemoveAll(sub)
+	if err := os.MkdirAll(sub, 0o755); err != nil {
+		return "err:" + err.Error()
+	}
+	defer os.RemoveAll(sub)
+	e := &env{dir: sub, size: size}
+	defer e.close()
+	e.comp = tsm1.NewCompactor()
+	e.comp.Dir, e.comp.Size, e.comp.FileStore = sub, size, e
+	e.comp.Open()
+	x := uint64(seed)*2654435761 + 88172645463325252
+	rnd := func() uint64 { x ^= x << 13; x ^= x >> 7; x ^= x << 17; return x }
+	write := func(gen int, keys []string, pts map[string][]tsm1.Value) string {
+		path := filepath.Join(sub, tsm1.DefaultFormatFileName(gen, 1)+".tsm")
+		fd, err := os.Create(path)
+		if err != nil {
+			return "err:" + err.Error()
+		}
+		w, err := tsm1.NewTSMWriter(fd)
+		if err != nil {
+			return "err:" + err.Error()
+		}
+		for _, k := range keys {
+			vs := pts[k]
+			for len(vs) > 0 {
+				n := len(vs)
+				if n > size {
+					n = size
+				}
+				b, err := tsm1.Values(vs[:n]).Encode(nil)
+				if err != nil {
+					return "err:" + err.Error()
+				}
+				if err := w.WriteBlock([]byte(k), vs[0].UnixNano(), vs[n-1].UnixNano(), b); err != nil {
+					return "err:" + err.Error()
+				}
+				vs = vs[n:]
+			}
+		}
+		if err := w.WriteIndex(); err != nil {
+			return "err:" + err.Error()
+		}
+		if err := w.Close(); err != nil {
+			return "err:" + err.Error()
+		}
+		if err := e.open(path, gen, 1); err != nil {
+			return "err:" + err.Error()
+		}
+		return ""
+	}
+	// expected number of points per key after the merge (distinct timestamps)
+	want := map[string]map[int64]bool{}
+	note := func(k string, t int64) {
+		if want[k] == nil {
+			want[k] = map[int64]bool{}
+		}
+		want[k][t] = true
+	}
+	bigKey := "a-big#!~#s"
+	var keysA, keysB []string
+	ptsA, ptsB := map[string][]tsm1.Value{}, map[string][]tsm1.Value{}
+	keysA = append(keysA, bigKey)
+	for i := 0; i < 160; i++ {
+		b := make([]byte, 16384)
+		for j := range b {
+			b[j] = "0123456789abcdefghijklmnopqrstuvwxyzABCDEFGHIJKLMNOPQRSTUVWXYZ-_"[rnd()&63]
+		}
+		ptsA[bigKey] = append(ptsA[bigKey], tsm1.NewStringValue(int64(i), string(b)))
+		note(bigKey, int64(i))
+	}
+	for k := 0; k < nkeys; k++ {
+		key := fmt.Sprintf("k%02d#!~#v", k)
+		keysA = append(keysA, key)
+		for i := 0; i < 1+int(rnd()%5); i++ {
+			ptsA[key] = append(ptsA[key], tsm1.NewIntegerValue(int64(10*i), int64(k)))
+			note(key, int64(10*i))
+		}
+		if rnd()%2 == 0 {
+			keysB = append(keysB, key)
+			for i := 0; i < 1+int(rnd()%5); i++ {
+				ptsB[key] = append(ptsB[key], tsm1.NewIntegerValue(int64(10*i+5), int64(k)))
+				note(key, int64(10*i+5))
+			}
+		}
+	}
+	if len(keysB) == 0 {
+		keysB = append(keysB, "zz#!~#v")
+		ptsB["zz#!~#v"] = []tsm1.Value{tsm1.NewIntegerValue(1, 1)}
+		note("zz#!~#v", 1)
+	}
+	if r := write(1, keysA, ptsA); r != "" {
+		return r
+	}
+	if r := write(2, keysB, ptsB); r != "" {
+		return r
+	}
+	victimKey := fmt.Sprintf("k%02d#!~#v", victim%nkeys)
+	injected := false
+	e.comp.RateLimit = &onceRate{fn: func() {
+		injected = e.files[0].r.Delete([][]byte{[]byte(victimKey)}) == nil
+	}}
+	paths := []string{e.files[0].path, e.files[1].path}
+	var outs []string
+	var err error
+	if mode == "fast" {
+		outs, err = e.comp.CompactFast(paths)
+	} else {
+		outs, err = e.comp.CompactFull(paths)
+	}
+	if !injected {
+		return "rerr not-injected"
+	}
+	if err != nil {
+		if left, _ := filepath.Glob(filepath.Join(sub, "*.tmp")); len(left) > 0 {
+			return fmt.Sprintf("READER-ERROR-LEFTOVER %d tmp files after %v", len(left), err)
+		}
+		for _, p := range paths {
+			if _, serr := os.Stat(p); serr != nil {
+				return "READER-ERROR-LOST-INPUT " + filepath.Base(p)
+			}
+		}
+		return "rerr handled"
+	}
+	// the compaction reported success: what it wrote is what would be installed
+	got := map[string]map[int64]bool{}
+	for _, o := range outs {
+		fd, oerr := os.Open(o)
+		if oerr != nil {
+			return "err:" + oerr.Error()
+		}
+		r, oerr := tsm1.NewTSMReader(fd)
+		if oerr != nil {
+			return "READER-ERROR-BAD-OUTPUT " + oerr.Error()
+		}
+		for i := 0; i < r.KeyCount(); i++ {
+			kb, _ := r.KeyAt(i)
+			vals, rerr := r.ReadAll(kb)
+			if rerr != nil {
+				r.Close()
+				return "READER-ERROR-BAD-OUTPUT " + rerr.Error()
+			}
+			if got[string(kb)] == nil {
+				got[string(kb)] = map[int64]bool{}
+			}
+			for _, v := range vals {
+				got[string(kb)][v.UnixNano()] = true
+			}
+		}
+		r.Close()
+	}
+	var lost []string
+	for k, ts := range want {
+		if k == victimKey {
+			continue
+		}
+		if len(got[k]) != len(ts) {
+			lost = append(lost, fmt.Sprintf("%s:%d/%d", k, len(got[k]), len(ts)))
+		}
+	}
+	if len(lost) > 0 {
+		sort.Strings(lost)
+		return "READER-ERROR-SWALLOWED the compaction reported success, its output lacks points of " + strings.Join(lost, ",")
+	}
+	return "rerr handled"
 }
 
 func (Prop) RunImpl(c fw.Case) []string { return RunOps(c.Ops) }
